@@ -41,7 +41,7 @@ from rv.sim import Bench
 from rv.usb2host import UTMIHost
 from rv.ref import usb2 as U
 from rv.ref import c07_ctrl as C
-from rv.checks.c07 import build_device, start_device, draw_profiles
+from rv.checks.c07 import build_device, start_device, draw_profiles, draw_config
 
 PROPERTY = "C08"
 CASES = {"quick": 320, "thorough": 4800}
@@ -55,7 +55,7 @@ REQUIRED_BINS = [
     "probe_current_pending", "probe_new_pending", "probe_old_after_commit", "probe_current_idle", "probe_one_bit_off",
     "abandoned_after_setup", "abandoned_after_unacked_zlp", "other_transfer_with_acks", "reset_idle",
     "reset_after_setup", "reset_after_unacked_zlp", "reset_with_nonzero_address", "reset_with_nonzero_config",
-    "short_se0", "vbus_drop", "bulk_ack_after_commit",
+    "short_se0", "vbus_drop", "bulk_ack_after_commit", "timing_fs60", "timing_fs12", "reset_right_after_status_ack",
 ]
 REQUIRED_EVENTS = ["cycles_monitored", "address_changes_seen", "config_changes_seen", "reset_strobes_seen",
                    "commits_judged", "probes_judged", "resets_judged", "sessions"]
@@ -191,14 +191,15 @@ def run_case(rng, tier, res):
 
 def run_session(rng, res, n_episodes, tier):
     descs = C.make_descriptors(rng)
-    fs60 = tier == "thorough" and rng.random() < 0.3      # thorough tier: also luna's 60 MHz full-speed timing tables
-    dev, utmi, ctrl, ep_in, ep_out, spy = build_device(descs, fs60=fs60)
+    fs60, ep0_mps, skip_get_config = draw_config(rng, res)
+    dev, utmi, ctrl, ep_in, ep_out, spy = build_device(descs, fs60=fs60, ep0_mps=ep0_mps, skip_get_config=skip_get_config)
     b = Bench(dev, domain="usb", freq=60e6, max_cycles=90000)
     gap_profile, ready_profile = draw_profiles(rng)
     host = UTMIHost(b, utmi, rng, timing="fs60" if fs60 else "fs12", ready_profile=ready_profile, gap_profile=gap_profile)
     acks_in_windows = rng.random() < 0.6
     ses = C.Session(b, host, rng, res, descs, utmi, report=False, foreign_ack_in_windows=acks_in_windows,
-                    resp_window=120 if fs60 else C.RESP_WINDOW)
+                    resp_window=120 if fs60 else C.RESP_WINDOW, mps=ep0_mps,
+                    get_config_override=0x5A if skip_get_config else None)
     ref = ses.ref
     jd = Judge(res, ses)
     p_inter = rng.choice([0.2, 0.4, 0.6, 0.8])
@@ -316,6 +317,17 @@ def run_session(rng, res, n_episodes, tier):
         fate = "complete"
         if rng.random() < p_abandon:
             fate = rng.choice(["abandon_after_setup", "abandon_after_zlp", "reset_after_setup", "reset_after_zlp"])
+        if fate == "complete" and rng.random() < 0.12:
+            # bus reset starting 0-3 cycles after the host's status ACK (inside the commit window): the request's value
+            # may be adopted, the reset then clears it
+            a = ref.addr
+            ok = yield from ses.w_setup(a, s8)
+            if not ok:
+                return
+            ok, r = yield from ses.w_in(a, 0, "ack", gap=False)
+            res.bin("reset_right_after_status_ack")
+            yield from do_reset("se0", pre=rng.randint(0, 3))
+            return
         if fate == "complete":
             ok = yield from ses.transfer_nodata(s8, p_inter=p_inter, p_noack=0.25)
             if ok and checkpoint():
@@ -342,14 +354,14 @@ def run_session(rng, res, n_episodes, tier):
         else:
             res.bin("abandoned_after_setup" if fate == "abandon_after_setup" else "abandoned_after_unacked_zlp")
 
-    def do_reset(kind=None):
+    def do_reset(kind=None, pre=3):
         kind = kind or rng.choice(["se0", "se0", "se0", "vbus"])
         if jd.reg["addr"]:
             res.bin("reset_with_nonzero_address")
         if jd.reg["cfg"]:
             res.bin("reset_with_nonzero_config")
         if kind == "se0":
-            yield from ses.bus_reset()
+            yield from ses.bus_reset(pre=pre)
         else:
             res.bin("vbus_drop")
             yield from ses.vbus_drop()
